@@ -1,1 +1,723 @@
-(* placeholder *)
+(* Proofs about the storage contract model (Store/Contract.v), exported to Props/C09.v C10.v C18.v. *)
+From MDK Require Import Base.Prelude Base.AMap Store.Contract Store.ContractSpec.
+
+(* ================================================================ generic association-map facts *)
+Section AMapFacts.
+  Context {K V : Type}.
+  Variable keqb : K -> K -> bool.
+  Hypothesis keqb_spec : forall a b, keqb a b = true <-> a = b.
+
+  Lemma keqb_refl k : keqb k k = true.
+  Proof. apply keqb_spec. reflexivity. Qed.
+
+  Lemma keqb_neq a b : a <> b -> keqb a b = false.
+  Proof. intros H. destruct (keqb a b) eqn:E; [|reflexivity]. apply keqb_spec in E. contradiction. Qed.
+
+  Lemma aget_aset_same k (v : V) m : aget keqb k (aset keqb k v m) = Some v.
+  Proof.
+    induction m as [|[k' v'] r IH]; cbn [aset aget].
+    - rewrite keqb_refl. reflexivity.
+    - destruct (keqb k k') eqn:E; cbn [aget].
+      + rewrite keqb_refl. reflexivity.
+      + rewrite E. exact IH.
+  Qed.
+
+  Lemma aget_aset_other k k' (v : V) m : k' <> k -> aget keqb k' (aset keqb k v m) = aget keqb k' m.
+  Proof.
+    intros Hne. induction m as [|[k2 v2] r IH]; cbn [aset aget].
+    - rewrite (keqb_neq _ _ Hne). reflexivity.
+    - destruct (keqb k k2) eqn:E; cbn [aget].
+      + apply keqb_spec in E. subst k2. rewrite (keqb_neq _ _ Hne). reflexivity.
+      + destruct (keqb k' k2); [reflexivity|exact IH].
+  Qed.
+
+  Lemma aget_adel_same k (m : list (K * V)) : aget keqb k (adel keqb k m) = None.
+  Proof.
+    induction m as [|[k' v'] r IH]; cbn [adel aget]; [reflexivity|].
+    destruct (keqb k k') eqn:E; [exact IH|]. cbn [aget]. rewrite E. exact IH.
+  Qed.
+
+  Lemma aget_adel_other k k' (m : list (K * V)) : k' <> k -> aget keqb k' (adel keqb k m) = aget keqb k' m.
+  Proof.
+    intros Hne. induction m as [|[k2 v2] r IH]; cbn [adel aget]; [reflexivity|].
+    destruct (keqb k k2) eqn:E.
+    - apply keqb_spec in E. subst k2. rewrite (keqb_neq _ _ Hne). exact IH.
+    - cbn [aget]. destruct (keqb k' k2); [reflexivity|exact IH].
+  Qed.
+
+  Lemma adel_absent k (m : list (K * V)) : aget keqb k m = None -> adel keqb k m = m.
+  Proof.
+    induction m as [|[k' v'] r IH]; cbn [adel aget]; [reflexivity|].
+    destruct (keqb k k'); [discriminate|]. intros H. rewrite (IH H). reflexivity.
+  Qed.
+
+  Lemma aget_In k (v : V) m : aget keqb k m = Some v -> In (k, v) m.
+  Proof.
+    induction m as [|[k' v'] r IH]; cbn [aget]; [discriminate|].
+    destruct (keqb k k') eqn:E.
+    - apply keqb_spec in E. subst k'. intros [= ->]. left. reflexivity.
+    - intros H. right. exact (IH H).
+  Qed.
+
+  Lemma In_aget k (v : V) m : NoDup (map fst m) -> In (k, v) m -> aget keqb k m = Some v.
+  Proof.
+    induction m as [|[k' v'] r IH]; cbn [aget map fst]; intros Hnd Hin; [destruct Hin|].
+    inversion Hnd as [|? ? Hnotin Hnd']; subst.
+    destruct Hin as [Heq|Hin].
+    - injection Heq as -> ->. rewrite keqb_refl. reflexivity.
+    - destruct (keqb k k') eqn:E.
+      + apply keqb_spec in E. subst k'. exfalso. apply Hnotin.
+        change k with (fst (k, v)). apply in_map. exact Hin.
+      + exact (IH Hnd' Hin).
+  Qed.
+
+  Lemma aget_In_iff k (v : V) m : NoDup (map fst m) -> (aget keqb k m = Some v <-> In (k, v) m).
+  Proof. intros Hnd. split; [apply aget_In|apply In_aget; exact Hnd]. Qed.
+
+  Lemma aset_keys_in k k' (v : V) m : In k' (map fst (aset keqb k v m)) <-> k' = k \/ In k' (map fst m).
+  Proof.
+    induction m as [|[k2 v2] r IH]; cbn [aset map fst In].
+    - split; [intros [H|[]]; left; symmetry; exact H | intros [H|[]]; left; symmetry; exact H].
+    - destruct (keqb k k2) eqn:E; cbn [map fst In].
+      + apply keqb_spec in E. subst k2. split.
+        * intros [H|H]; [left; symmetry; exact H|right; right; exact H].
+        * intros [H|[H|H]]; [left; symmetry; exact H|left; exact H|right; exact H].
+      + rewrite IH. split.
+        * intros [H|[H|H]]; [right; left; exact H|left; exact H|right; right; exact H].
+        * intros [H|[H|H]]; [right; left; exact H|left; exact H|right; right; exact H].
+  Qed.
+
+  Lemma aset_nodup k (v : V) m : NoDup (map fst m) -> NoDup (map fst (aset keqb k v m)).
+  Proof.
+    induction m as [|[k2 v2] r IH]; cbn [aset map fst]; intros Hnd.
+    - constructor; [intros []|constructor].
+    - inversion Hnd as [|? ? Hnotin Hnd']; subst.
+      destruct (keqb k k2) eqn:E; cbn [map fst].
+      + apply keqb_spec in E. subst k2. constructor; assumption.
+      + constructor; [|exact (IH Hnd')].
+        rewrite aset_keys_in. intros [H|H]; [|exact (Hnotin H)].
+        subst k2. rewrite keqb_refl in E. discriminate.
+  Qed.
+
+  Lemma adel_keys_in k k' (m : list (K * V)) : In k' (map fst (adel keqb k m)) -> In k' (map fst m).
+  Proof.
+    induction m as [|[k2 v2] r IH]; cbn [adel map fst In]; [intros []|].
+    destruct (keqb k k2); cbn [map fst In].
+    - intros H. right. exact (IH H).
+    - intros [H|H]; [left; exact H|right; exact (IH H)].
+  Qed.
+
+  Lemma adel_nodup k (m : list (K * V)) : NoDup (map fst m) -> NoDup (map fst (adel keqb k m)).
+  Proof.
+    induction m as [|[k2 v2] r IH]; cbn [adel map fst]; intros Hnd; [constructor|].
+    inversion Hnd as [|? ? Hnotin Hnd']; subst.
+    destruct (keqb k k2); cbn [map fst]; [exact (IH Hnd')|].
+    constructor; [|exact (IH Hnd')]. intros H. apply Hnotin. exact (adel_keys_in _ _ _ H).
+  Qed.
+
+  Lemma filter_keys_in (f : K * V -> bool) k m : In k (map fst (filter f m)) -> In k (map fst m).
+  Proof.
+    induction m as [|kv r IH]; cbn [filter map In]; [intros []|].
+    destruct (f kv); cbn [map In].
+    - intros [H|H]; [left; exact H|right; exact (IH H)].
+    - intros H. right. exact (IH H).
+  Qed.
+
+  Lemma filter_nodup (f : K * V -> bool) m : NoDup (map fst m) -> NoDup (map fst (filter f m)).
+  Proof.
+    induction m as [|kv r IH]; cbn [filter map]; intros Hnd; [constructor|].
+    inversion Hnd as [|? ? Hnotin Hnd']; subst.
+    destruct (f kv); cbn [map]; [|exact (IH Hnd')].
+    constructor; [|exact (IH Hnd')]. intros H. apply Hnotin. exact (filter_keys_in _ _ _ H).
+  Qed.
+
+  Lemma aget_filter_keep (f : K * V -> bool) k v m :
+    aget keqb k m = Some v -> f (k, v) = true -> aget keqb k (filter f m) = Some v.
+  Proof.
+    intros Hget Hf. induction m as [|[k' v'] r IH]; cbn [aget filter] in *; [discriminate|].
+    destruct (keqb k k') eqn:E.
+    - apply keqb_spec in E. subst k'. injection Hget as ->. rewrite Hf. cbn [aget]. rewrite keqb_refl. reflexivity.
+    - destruct (f (k', v')); [cbn [aget]; rewrite E|]; exact (IH Hget).
+  Qed.
+
+  Lemma aget_map_keep (h : K * V -> K * V) k v m :
+    (forall kv, fst (h kv) = fst kv) ->
+    aget keqb k m = Some v -> aget keqb k (map h m) = Some (snd (h (k, v))).
+  Proof.
+    intros Hh. induction m as [|[k' v'] r IH]; cbn [aget map]; [discriminate|].
+    destruct (h (k', v')) as [k2 v2] eqn:Eh.
+    assert (k2 = k') as -> by (specialize (Hh (k', v')); rewrite Eh in Hh; exact Hh).
+    cbn [aget]. destruct (keqb k k') eqn:E.
+    - apply keqb_spec in E. subst k'. intros [= ->]. rewrite Eh. reflexivity.
+    - exact IH.
+  Qed.
+
+  Lemma filter_key_absent k (m : list (K * V)) :
+    ~ In k (map fst m) -> filter (fun kv => keqb (fst kv) k) m = [].
+  Proof.
+    induction m as [|[k' v'] r IH]; cbn [filter map fst In]; intros Hn; [reflexivity|].
+    destruct (keqb k' k) eqn:E.
+    - apply keqb_spec in E. exfalso. apply Hn. left. exact E.
+    - apply IH. intros H. apply Hn. right. exact H.
+  Qed.
+
+  Lemma filter_key_count k (v : V) m :
+    NoDup (map fst m) -> aget keqb k m = Some v ->
+    length (filter (fun kv => keqb (fst kv) k) m) = 1%nat.
+  Proof.
+    induction m as [|[k' v'] r IH]; cbn [aget filter map fst]; intros Hnd Hget; [discriminate|].
+    inversion Hnd as [|? ? Hnotin Hnd']; subst.
+    destruct (keqb k k') eqn:E.
+    - apply keqb_spec in E. subst k'. rewrite keqb_refl. rewrite (filter_key_absent _ _ Hnotin). reflexivity.
+    - destruct (keqb k' k) eqn:E'.
+      + apply keqb_spec in E'. subst k'. rewrite keqb_refl in E. discriminate.
+      + exact (IH Hnd' Hget).
+  Qed.
+End AMapFacts.
+
+(* instances *)
+Definition Neqb_spec : forall a b : N, (a =? b) = true <-> a = b := N.eqb_eq.
+
+Lemma pair_neq_eqb (a b : N * N) : a <> b -> pair_eqb a b = false.
+Proof. apply keqb_neq. exact pair_eqb_spec. Qed.
+
+(* ================================================================ C09: snapshots and rollback *)
+
+(* what restore_view does to each component *)
+Lemma restore_mls s g v :
+  mls (restore_view s g v) = match v_mls v with [] => adel N.eqb g (mls s) | _ :: _ => aset N.eqb g (v_mls v) (mls s) end.
+Proof. unfold restore_view. destruct (v_mls v); reflexivity. Qed.
+Lemma restore_groups s g v :
+  groups (restore_view s g v) = match v_group v with Some gr => aset N.eqb g gr (groups s) | None => adel N.eqb g (groups s) end.
+Proof. reflexivity. Qed.
+Lemma restore_relays s g v :
+  relays (restore_view s g v) = match v_relays v with [] => adel N.eqb g (relays s) | _ :: _ => aset N.eqb g (v_relays v) (relays s) end.
+Proof. unfold restore_view. destruct (v_relays v); reflexivity. Qed.
+Lemma restore_secrets s g v :
+  secrets (restore_view s g v) =
+  filter (fun kv => negb (fst (fst kv) =? g)) (secrets s) ++ map (fun ev => ((g, fst ev), snd ev)) (v_secrets v).
+Proof. reflexivity. Qed.
+Lemma restore_snaps s g v : snaps (restore_view s g v) = snaps s.
+Proof. reflexivity. Qed.
+Lemma restore_outside s g v : outside_view (restore_view s g v) g = outside_view s g.
+Proof. reflexivity. Qed.
+
+Lemma filter_neg_then_pos {A} (p : A -> bool) l : filter p (filter (fun x => negb (p x)) l) = [].
+Proof.
+  induction l as [|x r IH]; cbn [filter]; [reflexivity|].
+  destruct (p x) eqn:E; cbn [negb filter]; [exact IH|]. rewrite E. exact IH.
+Qed.
+
+Lemma secrets_restored_same g (xs : list ((N * N) * N)) (vs : list (N * N)) :
+  map (fun kv => (snd (fst kv), snd kv))
+      (filter (fun kv => fst (fst kv) =? g)
+              (filter (fun kv => negb (fst (fst kv) =? g)) xs ++ map (fun ev => ((g, fst ev), snd ev)) vs)) = vs.
+Proof.
+  rewrite filter_app, (filter_neg_then_pos (fun kv : N * N * N => fst (fst kv) =? g)). cbn [app].
+  induction vs as [|[e v] r IH]; cbn [map filter fst snd]; [reflexivity|].
+  rewrite N.eqb_refl. cbn [map fst snd]. rewrite IH. reflexivity.
+Qed.
+
+Lemma secrets_restored_other g g' (xs : list ((N * N) * N)) (vs : list (N * N)) : g' <> g ->
+  filter (fun kv => fst (fst kv) =? g')
+         (filter (fun kv => negb (fst (fst kv) =? g)) xs ++ map (fun ev => ((g, fst ev), snd ev)) vs)
+  = filter (fun kv => fst (fst kv) =? g') xs.
+Proof.
+  intros Hne. rewrite filter_app.
+  assert (filter (fun kv : N * N * N => fst (fst kv) =? g') (map (fun ev : N * N => ((g, fst ev), snd ev)) vs) = []) as ->.
+  { induction vs as [|ev r IH]; cbn [map filter fst]; [reflexivity|].
+    destruct (g =? g') eqn:E; [apply N.eqb_eq in E; congruence|exact IH]. }
+  rewrite app_nil_r.
+  induction xs as [|[[a b] c] r IH]; cbn [filter fst]; [reflexivity|].
+  destruct (a =? g) eqn:E1; cbn [negb filter fst].
+  - apply N.eqb_eq in E1. subst a. destruct (g =? g') eqn:E2; [apply N.eqb_eq in E2; congruence|exact IH].
+  - destruct (a =? g'); [rewrite IH; reflexivity|exact IH].
+Qed.
+
+Lemma view_of_restore s g v : view_of (restore_view s g v) g = v.
+Proof.
+  destruct v as [vm vg vr vs]. unfold view_of. f_equal.
+  - unfold mls_rows. rewrite restore_mls. cbn [v_mls]. destruct vm as [|x r].
+    + rewrite (aget_adel_same N.eqb). reflexivity.
+    + rewrite (aget_aset_same N.eqb Neqb_spec). reflexivity.
+  - rewrite restore_groups. cbn [v_group]. destruct vg as [gr|].
+    + apply (aget_aset_same N.eqb Neqb_spec).
+    + apply (aget_adel_same N.eqb).
+  - unfold group_relays. rewrite restore_relays. cbn [v_relays]. destruct vr as [|x r].
+    + rewrite (aget_adel_same N.eqb). reflexivity.
+    + rewrite (aget_aset_same N.eqb Neqb_spec). reflexivity.
+  - unfold group_secrets. rewrite restore_secrets. cbn [v_secrets]. apply secrets_restored_same.
+Qed.
+
+Lemma view_of_restore_other s g g' v : g' <> g -> view_of (restore_view s g v) g' = view_of s g'.
+Proof.
+  intros Hne. unfold view_of. f_equal.
+  - unfold mls_rows. rewrite restore_mls. destruct (v_mls v).
+    + rewrite (aget_adel_other N.eqb Neqb_spec) by exact Hne. reflexivity.
+    + rewrite (aget_aset_other N.eqb Neqb_spec) by exact Hne. reflexivity.
+  - rewrite restore_groups. destruct (v_group v).
+    + apply (aget_aset_other N.eqb Neqb_spec). exact Hne.
+    + apply (aget_adel_other N.eqb Neqb_spec). exact Hne.
+  - unfold group_relays. rewrite restore_relays. destruct (v_relays v).
+    + rewrite (aget_adel_other N.eqb Neqb_spec) by exact Hne. reflexivity.
+    + rewrite (aget_aset_other N.eqb Neqb_spec) by exact Hne. reflexivity.
+  - unfold group_secrets. rewrite restore_secrets. rewrite secrets_restored_other by exact Hne. reflexivity.
+Qed.
+
+(* view_of ignores the snapshot table *)
+Lemma view_of_set_snaps s x g : view_of (set_snaps s x) g = view_of s g.
+Proof. reflexivity. Qed.
+
+(* the snapshot table after any step *)
+Ltac step_cases :=
+  repeat match goal with
+  | |- context [fst (if ?c then _ else _)] => destruct c
+  | |- context [fst (match ?c with Some _ => _ | None => _ end)] => destruct c
+  end.
+
+Lemma step_snaps s o :
+  snaps (fst (step s o)) =
+  match o with
+  | Snapshot g n ts => aset pair_eqb (g, n) (ts, view_of s g) (snaps s)
+  | Rollback g n => adel pair_eqb (g, n) (snaps s)
+  | Release g n => adel pair_eqb (g, n) (snaps s)
+  | Prune min_ts => filter (fun kv => min_ts <=? fst (snd kv)) (snaps s)
+  | _ => snaps s
+  end.
+Proof.
+  destruct o; cbn [step]; try (step_cases; reflexivity).
+  (* Rollback *)
+  destruct (pget (g, name) (snaps s)) as [[t v]|] eqn:E; cbn [fst].
+  - rewrite restore_snaps. reflexivity.
+  - symmetry. apply (adel_absent pair_eqb). exact E.
+Qed.
+
+Lemma step_snaps_nodup s o : NoDup (map fst (snaps s)) -> NoDup (map fst (snaps (fst (step s o)))).
+Proof.
+  intros Hnd. rewrite step_snaps. destruct o; try exact Hnd.
+  - apply (aset_nodup pair_eqb pair_eqb_spec). exact Hnd.
+  - apply (adel_nodup pair_eqb). exact Hnd.
+  - apply (adel_nodup pair_eqb). exact Hnd.
+  - apply filter_nodup. exact Hnd.
+Qed.
+
+Lemma run_state_snaps_nodup ops s : NoDup (map fst (snaps s)) -> NoDup (map fst (snaps (run_state ops s))).
+Proof.
+  revert s. induction ops as [|o r IH]; intros s Hnd; [exact Hnd|].
+  unfold run_state. cbn [fold_left]. apply IH. apply step_snaps_nodup. exact Hnd.
+Qed.
+
+Lemma pair_key_neq (g' n' g n : N) : (g' =? g) && (n' =? n) = false -> (g, n) <> (g', n').
+Proof. intros H [= -> ->]. rewrite !N.eqb_refl in H. discriminate. Qed.
+
+Lemma step_keeps_snapshot g n ts w o s :
+  keeps g n ts o = true ->
+  pget (g, n) (snaps s) = Some (ts, w) -> pget (g, n) (snaps (fst (step s o))) = Some (ts, w).
+Proof.
+  intros Hk Hget. rewrite step_snaps. destruct o; cbn [keeps] in Hk; try exact Hget.
+  - apply negb_true_iff in Hk. rewrite (aget_aset_other pair_eqb pair_eqb_spec); [exact Hget|].
+    apply pair_key_neq. exact Hk.
+  - apply negb_true_iff in Hk. rewrite (aget_adel_other pair_eqb pair_eqb_spec); [exact Hget|].
+    apply pair_key_neq. exact Hk.
+  - apply negb_true_iff in Hk. rewrite (aget_adel_other pair_eqb pair_eqb_spec); [exact Hget|].
+    apply pair_key_neq. exact Hk.
+  - apply (aget_filter_keep pair_eqb pair_eqb_spec); [exact Hget|]. cbn [fst snd]. exact Hk.
+Qed.
+
+Lemma run_keeps_snapshot g n ts w ops s :
+  forallb (keeps g n ts) ops = true ->
+  pget (g, n) (snaps s) = Some (ts, w) -> pget (g, n) (snaps (run_state ops s)) = Some (ts, w).
+Proof.
+  revert s. induction ops as [|o r IH]; intros s Hall Hget; [exact Hget|].
+  cbn [forallb] in Hall. apply andb_true_iff in Hall. destruct Hall as [Ho Hr].
+  unfold run_state. cbn [fold_left]. apply IH; [exact Hr|].
+  apply step_keeps_snapshot; assumption.
+Qed.
+
+Lemma rollback_present s g n ts v :
+  pget (g, n) (snaps s) = Some (ts, v) ->
+  step s (Rollback g n) = (restore_view (set_snaps s (adel pair_eqb (g, n) (snaps s))) g v, ROk).
+Proof. intros H. cbn [step]. rewrite H. reflexivity. Qed.
+
+Lemma rollback_missing_noop : forall s g n,
+  aget pair_eqb (g, n) (snaps s) = None -> step s (Rollback g n) = (s, RErr).
+Proof. intros s g n H. cbn [step]. rewrite H. reflexivity. Qed.
+
+Lemma rollback_exact : forall s g n ts ops,
+  forallb (keeps g n ts) ops = true ->
+  let s1 := fst (step s (Snapshot g n ts)) in
+  let s2 := run_state ops s1 in
+  let '(s3, r) := step s2 (Rollback g n) in
+  r = ROk /\ view_of s3 g = view_of s g.
+Proof.
+  intros s g n ts ops Hall s1 s2.
+  assert (pget (g, n) (snaps s2) = Some (ts, view_of s g)) as Hinv.
+  { apply run_keeps_snapshot; [exact Hall|]. unfold s1. rewrite step_snaps.
+    apply (aget_aset_same pair_eqb pair_eqb_spec). }
+  rewrite (rollback_present _ _ _ _ _ Hinv). split; [reflexivity|]. apply view_of_restore.
+Qed.
+
+Lemma rollback_frame : forall s g n,
+  let s' := fst (step s (Rollback g n)) in
+  outside_view s' g = outside_view s g /\
+  (forall g', g' <> g -> view_of s' g' = view_of s g') /\
+  (forall g' n', (g', n') <> (g, n) -> aget pair_eqb (g', n') (snaps s') = aget pair_eqb (g', n') (snaps s)).
+Proof.
+  intros s g n s'. split; [|split].
+  - unfold s'. destruct (pget (g, n) (snaps s)) as [[ts v]|] eqn:E.
+    + rewrite (rollback_present _ _ _ _ _ E). reflexivity.
+    + rewrite (rollback_missing_noop _ _ _ E). reflexivity.
+  - intros g' Hne. unfold s'. destruct (pget (g, n) (snaps s)) as [[ts v]|] eqn:E.
+    + rewrite (rollback_present _ _ _ _ _ E). cbn [fst]. rewrite view_of_restore_other by exact Hne. reflexivity.
+    + rewrite (rollback_missing_noop _ _ _ E). reflexivity.
+  - intros g' n' Hne. unfold s'. rewrite step_snaps. apply (aget_adel_other pair_eqb pair_eqb_spec). exact Hne.
+Qed.
+
+Lemma rollback_consumes : forall s g n v,
+  aget pair_eqb (g, n) (snaps s) = Some v -> NoDup (map fst (snaps s)) ->
+  aget pair_eqb (g, n) (snaps (fst (step s (Rollback g n)))) = None.
+Proof. intros s g n v _ _. rewrite step_snaps. apply (aget_adel_same pair_eqb). Qed.
+
+Lemma snapshot_ops_pure : forall s o, is_snapshot_op o = true -> live (fst (step s o)) = live s.
+Proof. intros s o H. destruct o; cbn [is_snapshot_op] in H; try discriminate; reflexivity. Qed.
+
+Lemma resnapshot_replaces : forall s g n ts1 ts2 ops,
+  NoDup (map fst (snaps s)) ->
+  let s1 := run_state ops (fst (step s (Snapshot g n ts1))) in
+  forallb (keeps g n ts1) ops = true ->
+  let s2 := fst (step s1 (Snapshot g n ts2)) in
+  aget pair_eqb (g, n) (snaps s2) = Some (ts2, view_of s1 g) /\
+  length (filter (fun kv => pair_eqb (fst kv) (g, n)) (snaps s2)) = 1%nat.
+Proof.
+  intros s g n ts1 ts2 ops Hnd s1 Hall s2.
+  assert (pget (g, n) (snaps s2) = Some (ts2, view_of s1 g)) as Hget.
+  { unfold s2. rewrite step_snaps. apply (aget_aset_same pair_eqb pair_eqb_spec). }
+  split; [exact Hget|].
+  apply (filter_key_count pair_eqb pair_eqb_spec _ _ _) with (2 := Hget).
+  unfold s2. apply step_snaps_nodup. unfold s1. apply run_state_snaps_nodup. apply step_snaps_nodup. exact Hnd.
+Qed.
+
+(* ================================================================ C10: last value wins, exact selection *)
+
+Lemma group_find_after_save : forall s g,
+  snd (step s (SaveGroup g)) = ROk ->
+  let s' := fst (step s (SaveGroup g)) in
+  aget N.eqb (g_id g) (groups s') = Some g /\
+  forall k, k <> g_id g -> aget N.eqb k (groups s') = aget N.eqb k (groups s).
+Proof.
+  intros s g Hok s'. unfold s'. cbn [step] in *.
+  destruct (nostr_taken_by_other s g); cbn [fst snd] in *; [discriminate|].
+  cbn [set_groups groups]. split.
+  - apply (aget_aset_same N.eqb Neqb_spec).
+  - intros k Hk. apply (aget_aset_other N.eqb Neqb_spec). exact Hk.
+Qed.
+
+Lemma group_save_refused_noop : forall s g, snd (step s (SaveGroup g)) <> ROk -> fst (step s (SaveGroup g)) = s.
+Proof.
+  intros s g H. cbn [step] in *. destruct (nostr_taken_by_other s g); cbn [fst snd] in *; [reflexivity|].
+  exfalso. apply H. reflexivity.
+Qed.
+
+Lemma msg_find_after_save : forall s m,
+  has_group s (m_group m) = true ->
+  let s' := fst (step s (SaveMsg m)) in
+  aget pair_eqb (m_group m, m_id m) (msgs s') = Some m /\
+  forall k, k <> (m_group m, m_id m) -> aget pair_eqb k (msgs s') = aget pair_eqb k (msgs s).
+Proof.
+  intros s m Hg s'. unfold s'. cbn [step]. rewrite Hg. cbn [fst set_msgs msgs]. split.
+  - apply (aget_aset_same pair_eqb pair_eqb_spec).
+  - intros k Hk. apply (aget_aset_other pair_eqb pair_eqb_spec). exact Hk.
+Qed.
+
+Lemma pmsg_find_after_save : forall s p,
+  let s' := fst (step s (SavePmsg p)) in
+  aget N.eqb (p_wrapper p) (pmsgs s') = Some p /\
+  forall k, k <> p_wrapper p -> aget N.eqb k (pmsgs s') = aget N.eqb k (pmsgs s).
+Proof.
+  intros s p s'. unfold s'. cbn [step fst set_pmsgs pmsgs]. split.
+  - apply (aget_aset_same N.eqb Neqb_spec).
+  - intros k Hk. apply (aget_aset_other N.eqb Neqb_spec). exact Hk.
+Qed.
+
+Lemma invalidate_msg_key g e kv : fst (invalidate_msg g e kv) = fst kv.
+Proof. unfold invalidate_msg. destruct (_ && _); reflexivity. Qed.
+
+Lemma invalidate_selects_exactly : forall s g e k m,
+  NoDup (map fst (msgs s)) ->
+  aget pair_eqb k (msgs s) = Some m ->
+  let s' := fst (step s (InvalidateMsgs g e)) in
+  let hit := (fst k =? g) && (match m_epoch m with Some x => e <? x | None => false end) in
+  aget pair_eqb k (msgs s') =
+    Some (if hit then mkMsg (m_id m) (m_group m) (m_pubkey m) (m_kind m) (m_created m) (m_processed m)
+                            (m_content m) (m_tags m) (m_wrapper m) (m_epoch m) MS_INVALIDATED else m) /\
+  (hit = true <-> In (snd k) (match snd (step s (InvalidateMsgs g e)) with RIds l => l | _ => [] end) /\ fst k = g).
+Proof.
+  intros s g e k m Hnd Hget s' hit. unfold s'. cbn [step fst snd set_msgs msgs]. split.
+  - rewrite (aget_map_keep pair_eqb pair_eqb_spec (invalidate_msg g e) k m (msgs s) (invalidate_msg_key g e) Hget).
+    unfold invalidate_msg. cbn [fst snd]. fold hit. destruct hit; reflexivity.
+  - split.
+    + intros Hhit. split.
+      * apply in_map_iff. exists (k, m). split; [reflexivity|].
+        apply filter_In. split; [apply (aget_In pair_eqb pair_eqb_spec); exact Hget|exact Hhit].
+      * unfold hit in Hhit. apply andb_true_iff in Hhit. destruct Hhit as [H1 _]. apply N.eqb_eq. exact H1.
+    + intros [Hin Hg]. apply in_map_iff in Hin. destruct Hin as [[k' m'] [Hk' Hin]].
+      apply filter_In in Hin. destruct Hin as [Hin Hhit']. cbn [fst snd] in Hk'.
+      unfold msg_hit in Hhit'. cbn [fst snd] in Hhit'.
+      assert (k' = k) as ->.
+      { apply andb_true_iff in Hhit'. destruct Hhit' as [H1 _]. apply N.eqb_eq in H1.
+        destruct k as [k1 k2], k' as [k1' k2']. cbn [fst snd] in *. congruence. }
+      apply (In_aget pair_eqb pair_eqb_spec _ _ _ Hnd) in Hin. rewrite Hget in Hin. injection Hin as <-. exact Hhit'.
+Qed.
+
+Lemma opt_eqb_some a g : opt_eqb a (Some g) = true <-> a = Some g.
+Proof.
+  destruct a as [x|]; cbn [opt_eqb]; [|split; discriminate].
+  rewrite N.eqb_eq. split; [intros ->; reflexivity|intros [= ->]; reflexivity].
+Qed.
+
+Lemma retry_selects_exactly : forall s g w,
+  NoDup (map fst (pmsgs s)) ->
+  In w (match snd (step s (FindFailedRetry g)) with RIds l => l | _ => [] end) <->
+  exists p, aget N.eqb w (pmsgs s) = Some p /\ p_group p = Some g /\ p_state p = PS_FAILED /\ p_epoch p = None.
+Proof.
+  intros s g w Hnd. cbn [step snd]. rewrite in_map_iff. split.
+  - intros [[w' p] [Hw Hin]]. cbn [fst] in Hw. subst w'. apply filter_In in Hin. destruct Hin as [Hin Hf].
+    cbn [snd] in Hf. apply andb_true_iff in Hf. destruct Hf as [Hf H3]. apply andb_true_iff in Hf. destruct Hf as [H1 H2].
+    exists p. split; [apply (In_aget N.eqb Neqb_spec _ _ _ Hnd); exact Hin|].
+    split; [apply opt_eqb_some; exact H1|]. split; [apply N.eqb_eq; exact H2|].
+    destruct (p_epoch p); [discriminate|reflexivity].
+  - intros [p [Hget [H1 [H2 H3]]]]. exists (w, p). split; [reflexivity|]. apply filter_In.
+    split; [apply (aget_In N.eqb Neqb_spec); exact Hget|]. cbn [snd].
+    rewrite H3. apply opt_eqb_some in H1. rewrite H1. apply N.eqb_eq in H2. rewrite H2. reflexivity.
+Qed.
+
+Lemma mark_retryable_only_failed : forall s w,
+  match aget N.eqb w (pmsgs s) with
+  | Some p => if p_state p =? PS_FAILED
+              then step s (MarkRetryable w) = (set_pmsgs s (aset N.eqb w (pmsg_set_state PS_RETRYABLE p) (pmsgs s)), ROk)
+              else step s (MarkRetryable w) = (s, RNotFound)
+  | None => step s (MarkRetryable w) = (s, RNotFound)
+  end.
+Proof.
+  intros s w. cbn [step]. destruct (gget w (pmsgs s)) as [p|]; [|reflexivity].
+  destruct (p_state p =? PS_FAILED); reflexivity.
+Qed.
+
+Lemma reads_pure : forall s o, is_read_op o = true -> fst (step s o) = s.
+Proof. intros s o H. destruct o; cbn [is_read_op] in H; try discriminate; reflexivity. Qed.
+
+(* ================================================================ C18: ordering, listing, paging *)
+
+Lemma key_gt_irrefl : forall a, ~ key_gt a a.
+Proof. intros [[a1 a2] a3]. unfold key_gt, key3_gtb. lia. Qed.
+
+Lemma key_gt_trans : forall a b c, key_gt a b -> key_gt b c -> key_gt a c.
+Proof. intros [[a1 a2] a3] [[b1 b2] b3] [[c1 c2] c3]. unfold key_gt, key3_gtb. lia. Qed.
+
+Lemma key_gt_total : forall a b, a <> b -> key_gt a b \/ key_gt b a.
+Proof.
+  intros [[a1 a2] a3] [[b1 b2] b3] Hne. unfold key_gt, key3_gtb.
+  destruct (N.eq_dec a1 b1) as [E1|E1]; [|lia].
+  destruct (N.eq_dec a2 b2) as [E2|E2]; [|lia].
+  destruct (N.eq_dec a3 b3) as [E3|E3]; [|lia].
+  exfalso. apply Hne. congruence.
+Qed.
+
+Lemma ins_desc_in key x l y : In y (ins_desc key x l) <-> y = x \/ In y l.
+Proof.
+  induction l as [|z r IH]; cbn [ins_desc In].
+  - split; [intros [H|[]]; left; symmetry; exact H|intros [H|[]]; left; symmetry; exact H].
+  - destruct (key3_gtb (key x) (key z)); cbn [In].
+    + split; [intros [H|H]; [left; symmetry; exact H|right; exact H]|intros [H|H]; [left; symmetry; exact H|right; exact H]].
+    + rewrite IH. split.
+      * intros [H|[H|H]]; [right; left; exact H|left; exact H|right; right; exact H].
+      * intros [H|[H|H]]; [right; left; exact H|left; exact H|right; right; exact H].
+Qed.
+
+Lemma ins_desc_length key x l : length (ins_desc key x l) = S (length l).
+Proof.
+  induction l as [|z r IH]; cbn [ins_desc length]; [reflexivity|].
+  destruct (key3_gtb (key x) (key z)); cbn [length]; [reflexivity|]. rewrite IH. reflexivity.
+Qed.
+
+Lemma ins_desc_sorted key x l :
+  sorted_desc key l -> (forall y, In y l -> key y <> key x) -> sorted_desc key (ins_desc key x l).
+Proof.
+  induction l as [|z r IH]; cbn [ins_desc]; intros Hs Hne.
+  - cbn [sorted_desc]. split; [intros y []|exact I].
+  - destruct Hs as [Hz Hr]. destruct (key3_gtb (key x) (key z)) eqn:E.
+    + cbn [sorted_desc]. split; [|split; assumption].
+      intros y [<-|Hy]; [exact E|]. apply key_gt_trans with (key z); [exact E|exact (Hz y Hy)].
+    + cbn [sorted_desc]. split.
+      * intros y Hy. apply ins_desc_in in Hy. destruct Hy as [->|Hy]; [|exact (Hz y Hy)].
+        destruct (key_gt_total (key z) (key x)) as [H|H]; [apply Hne; left; reflexivity|exact H|].
+        unfold key_gt in H. rewrite E in H. discriminate.
+      * apply IH; [exact Hr|]. intros y Hy. apply Hne. right. exact Hy.
+Qed.
+
+Lemma sort_desc_in : forall key l x, In x (sort_desc key l) <-> In x l.
+Proof.
+  intros key l x. induction l as [|z r IH]; [reflexivity|].
+  unfold sort_desc. cbn [fold_right]. fold (sort_desc key r). rewrite ins_desc_in, IH. cbn [In].
+  split; (intros [H|H]; [left; symmetry; exact H|right; exact H]).
+Qed.
+
+Lemma sort_desc_length : forall key l, length (sort_desc key l) = length l.
+Proof.
+  intros key l. induction l as [|z r IH]; [reflexivity|].
+  unfold sort_desc. cbn [fold_right length]. fold (sort_desc key r). rewrite ins_desc_length, IH. reflexivity.
+Qed.
+
+Lemma sort_desc_sorted : forall key l, (forall x y, In x l -> In y l -> key x = key y -> x = y) -> NoDup l ->
+  sorted_desc key (sort_desc key l).
+Proof.
+  intros key l. induction l as [|z r IH]; intros Hinj Hnd; [exact I|].
+  inversion Hnd as [|? ? Hnotin Hnd']; subst.
+  unfold sort_desc. cbn [fold_right]. fold (sort_desc key r). apply ins_desc_sorted.
+  - apply IH; [|exact Hnd']. intros x y Hx Hy. apply Hinj; right; assumption.
+  - intros y Hy Hk. apply sort_desc_in in Hy. apply Hnotin.
+    assert (y = z) as <- by (apply Hinj; [right; exact Hy|left; reflexivity|exact Hk]). exact Hy.
+Qed.
+
+Lemma sorted_desc_unique : forall key l1 l2,
+  sorted_desc key l1 -> sorted_desc key l2 -> (forall x, In x l1 <-> In x l2) -> NoDup l1 -> NoDup l2 -> l1 = l2.
+Proof.
+  intros key l1. induction l1 as [|x r1 IH]; intros l2 Hs1 Hs2 Hsame Hnd1 Hnd2.
+  - destruct l2 as [|y r2]; [reflexivity|]. exfalso. apply (Hsame y). left. reflexivity.
+  - destruct l2 as [|y r2]; [exfalso; apply (Hsame x); left; reflexivity|].
+    destruct Hs1 as [Hx Hr1]. destruct Hs2 as [Hy Hr2].
+    inversion Hnd1 as [|? ? Hn1 Hnd1']; subst. inversion Hnd2 as [|? ? Hn2 Hnd2']; subst.
+    assert (x = y) as Hxy.
+    { assert (In x (y :: r2)) as Hx2 by (apply Hsame; left; reflexivity).
+      assert (In y (x :: r1)) as Hy1 by (apply Hsame; left; reflexivity).
+      destruct Hx2 as [H|Hx2]; [symmetry; exact H|]. destruct Hy1 as [H|Hy1]; [exact H|].
+      exfalso. apply (key_gt_irrefl (key x)). apply key_gt_trans with (key y); [exact (Hx y Hy1)|exact (Hy x Hx2)]. }
+    subst y. f_equal. apply IH; try assumption.
+    intros z. split; intros Hz.
+    + assert (In z (x :: r2)) as H by (apply Hsame; right; exact Hz).
+      destruct H as [<-|H]; [contradiction|exact H].
+    + assert (In z (x :: r1)) as H by (apply Hsame; right; exact Hz).
+      destruct H as [<-|H]; [contradiction|exact H].
+Qed.
+
+Lemma page_exact : forall (l : list msg) limit offset,
+  page limit offset l = nat_page (N.to_nat (N.min limit (lenN l))) (N.to_nat (N.min offset (lenN l))) l.
+Proof.
+  intros l limit offset. unfold page, nat_page. destruct (lenN l <=? offset) eqn:E.
+  - assert (N.min offset (lenN l) = lenN l) as -> by lia. unfold lenN at 2. rewrite Nat2N.id.
+    rewrite skipn_all. rewrite firstn_nil. reflexivity.
+  - assert (N.min offset (lenN l) = offset) as -> by lia. reflexivity.
+Qed.
+
+Lemma page_as_slice {A} (l : list A) limit offset :
+  page limit offset l = firstn (N.to_nat limit) (skipn (N.to_nat offset) l).
+Proof.
+  unfold page. destruct (lenN l <=? offset) eqn:E.
+  - rewrite skipn_all2 by (unfold lenN in E; lia). rewrite firstn_nil. reflexivity.
+  - destruct (N.le_ge_cases limit (lenN l)) as [H|H].
+    + rewrite N.min_l by exact H. reflexivity.
+    + rewrite N.min_r by exact H.
+      assert (length (skipn (N.to_nat offset) l) <= length l)%nat as Hlen by (rewrite skipn_length; lia).
+      rewrite !firstn_all2; [reflexivity| |]; unfold lenN in *; lia.
+Qed.
+
+Lemma firstn_add {A} a b (l : list A) : firstn (a + b) l = firstn a l ++ firstn b (skipn a l).
+Proof.
+  revert l. induction a as [|a IH]; intros l; [reflexivity|].
+  destruct l as [|x r]; cbn [Nat.add firstn skipn app].
+  - rewrite firstn_nil. reflexivity.
+  - rewrite IH. reflexivity.
+Qed.
+
+Lemma slices_concat {A} (L : nat) (l : list A) k :
+  concat (map (fun i => firstn L (skipn (i * L) l)) (seq 0 k)) = firstn (k * L) l.
+Proof.
+  induction k as [|k IH]; [reflexivity|].
+  rewrite seq_S, map_app, concat_app, IH. cbn [Nat.add map concat]. rewrite app_nil_r.
+  replace (S k * L)%nat with (k * L + L)%nat by lia. rewrite firstn_add. reflexivity.
+Qed.
+
+Lemma pages_partition : forall (l : list msg) limit k, 0 < limit -> lenN l <= N.of_nat k * limit ->
+  concat (map (fun i => page limit (N.of_nat i * limit) l) (seq 0 k)) = l.
+Proof.
+  intros l limit k _ Hlen.
+  rewrite (map_ext _ (fun i => firstn (N.to_nat limit) (skipn (i * N.to_nat limit) l))).
+  - rewrite slices_concat. apply firstn_all2.
+    assert (N.to_nat (lenN l) <= N.to_nat (N.of_nat k * limit))%nat as H by lia.
+    rewrite N2Nat.inj_mul, Nat2N.id in H. unfold lenN in H. rewrite Nat2N.id in H. exact H.
+  - intros i. rewrite page_as_slice. rewrite N2Nat.inj_mul, Nat2N.id. reflexivity.
+Qed.
+
+Lemma limit_refused : forall s g limit offset sort,
+  limit = 0 \/ MAX_LIMIT < limit -> snd (step s (Messages g limit offset sort)) = RErr.
+Proof.
+  intros s g limit offset sort H. cbn [step snd].
+  assert (limit_ok limit = false) as -> by (unfold limit_ok, MAX_LIMIT in *; lia).
+  reflexivity.
+Qed.
+
+Lemma last_is_head : forall s g sort, has_group s g = true ->
+  snd (step s (LastMessage g sort)) =
+  RMsg (match snd (step s (Messages g MAX_LIMIT 0 sort)) with RMsgs (m :: _) => Some m | _ => None end).
+Proof.
+  intros s g sort Hg. cbn [step snd]. rewrite Hg.
+  assert (limit_ok MAX_LIMIT = true) as -> by reflexivity. cbn [negb].
+  destruct (sort_desc (sort_key sort) (group_msgs s g)) as [|m r]; [reflexivity|].
+  unfold page. destruct (lenN (m :: r) <=? 0) eqn:E; [rewrite lenN_cons in E; lia|].
+  change (N.to_nat 0) with O. cbn [skipn].
+  destruct (N.to_nat (N.min MAX_LIMIT (lenN (m :: r)))) as [|c] eqn:E2.
+  - exfalso. unfold MAX_LIMIT in E2. rewrite lenN_cons in E2. lia.
+  - reflexivity.
+Qed.
+
+(* ================================================================ C09: a concrete, non-trivial history *)
+Module C09Example.
+  Definition g1 : group := mkGroup 1 101 7 8 [70; 71] 0 None None None 0 ST_ACTIVE 0.
+  Definition g1' : group := mkGroup 1 101 7 8 [70] 0 (Some 12) (Some 300) None 1 ST_ACTIVE 0.
+  Definition g2 : group := mkGroup 2 102 9 9 [72] 0 None None None 0 ST_ACTIVE 0.
+  Definition g2' : group := mkGroup 2 102 9 9 [72; 73] 0 (Some 13) (Some 310) None 4 ST_ACTIVE 0.
+  Definition m1 : msg := mkMsg 11 1 5 9 100 100 1 0 21 (Some 0) 0.
+  Definition m2 : msg := mkMsg 12 1 5 9 300 301 2 0 22 (Some 1) 0.
+  Definition m3 : msg := mkMsg 13 2 6 9 310 311 3 0 23 (Some 4) 0.
+
+  (* two groups, a message in group 1, MLS rows, relays and secrets for both *)
+  Definition before : list op :=
+    [ SaveGroup g1; SaveGroup g2; SaveMsg m1;
+      MlsWrite 1 0 1 10; MlsWrite 1 1 1 30; MlsWrite 2 0 1 20;
+      ReplaceRelays 1 [1; 2]; ReplaceRelays 2 [3];
+      SaveSecret 1 0 50; SaveSecret 2 0 60; GlobalWrite 0 1 99 ].
+  (* after the snapshot: writes to both groups, messages in both, a nested second snapshot of group 1 *)
+  Definition between : list op :=
+    [ MlsWrite 1 0 1 11; MlsWrite 1 2 2 12; MlsDelete 1 1 1; MlsDelete 2 0 1; MlsWrite 2 0 3 23;
+      SaveGroup g1'; SaveGroup g2'; ReplaceRelays 1 [9]; ReplaceRelays 2 [3; 4];
+      SaveSecret 1 1 51; SaveSecret 1 0 52; SaveSecret 2 4 61;
+      SaveMsg m2; SaveMsg m3; SavePmsg (mkPmsg 22 (Some 12) 301 (Some 1) (Some 1) 1 None);
+      Snapshot 1 2 2000; MlsWrite 1 0 5 15; SaveSecret 1 2 53; GlobalWrite 0 2 98 ].
+
+  Definition s0 : store := run_state before empty.                       (* snapshot-time state *)
+  Definition s2 : store := run_state (Snapshot 1 1 1000 :: between) s0.   (* just before the rollback *)
+  Definition s3 : store := fst (step s2 (Rollback 1 1)).                  (* just after *)
+End C09Example.
+
+Definition C09_example_statement : Prop :=
+  let s0 := C09Example.s0 in let s2 := C09Example.s2 in let s3 := C09Example.s3 in
+  (* the rollback succeeds, group 1 is back to its snapshot-time view *)
+  snd (step s2 (Rollback 1 1)) = ROk /\
+  view_of s3 1 = view_of s0 1 /\
+  (* ... which is not the view just before the rollback (the history is not trivial) *)
+  view_of s0 1 = mkView [((0, 1), 10); ((1, 1), 30)] (Some C09Example.g1) [1; 2] [(0, 50)] /\
+  view_of s2 1 = mkView [((0, 1), 11); ((2, 2), 12); ((0, 5), 15)] (Some C09Example.g1') [9] [(0, 52); (1, 51); (2, 53)] /\
+  (* group 2 keeps its post-snapshot view *)
+  view_of s3 2 = view_of s2 2 /\
+  view_of s2 2 = mkView [((0, 3), 23)] (Some C09Example.g2') [3; 4] [(0, 60); (4, 61)] /\
+  (* every message of both groups (those written after the snapshot included), processed records and global rows survive *)
+  msgs s3 = msgs s2 /\
+  map snd (msgs s3) = [C09Example.m1; C09Example.m2; C09Example.m3] /\
+  pmsgs s3 = pmsgs s2 /\ length (pmsgs s3) = 1%nat /\
+  mls_global s3 = [((0, 1), 99); ((0, 2), 98)] /\
+  (* the nested snapshot survives, the consumed one is gone *)
+  pget (1, 2) (snaps s3) = pget (1, 2) (snaps s2) /\
+  map fst (snaps s2) = [(1, 1); (1, 2)] /\ map fst (snaps s3) = [(1, 2)].
+
+Lemma c09_example : C09_example_statement.
+Proof. vm_compute. repeat split; reflexivity. Qed.
